@@ -53,3 +53,21 @@ Definition omap {A B} (f : A -> option B) : list A -> option (list B) :=
 Definition obind {A B} (o : option A) (f : A -> option B) := match o with Some a => f a | None => None end.
 Notation "x <- o ;; k" := (obind o (fun x => k)) (at level 60, o at next level, right associativity).
 
+
+(* the 23 term formers of src/term.rs Variant, as an enumeration (for generated tables) *)
+Inductive former :=
+| FHole | FType | FVar | FLam | FPi | FApp | FLet | FInt | FLit | FNeg | FSum | FDiff | FProd | FQuot
+| FLt | FLe | FEq | FGt | FGe | FBool | FTrue | FFalse | FIf.
+Definition former_eq_dec : forall a b : former, {a = b} + {a <> b}.
+Proof. decide equality. Defined.
+Definition former_eqb (a b : former) : bool := if former_eq_dec a b then true else false.
+Definition former_of (t : term) : former :=
+  match t with
+  | THole _ _ => FHole | TType => FType | TInt => FInt | TBool => FBool | TTrue => FTrue | TFalse => FFalse
+  | TLit _ => FLit | TVar _ => FVar | TLam _ _ _ => FLam | TPi _ _ _ => FPi | TApp _ _ => FApp | TLet _ _ => FLet
+  | TNeg _ => FNeg
+  | TBin o _ _ => match o with OSum => FSum | ODiff => FDiff | OProd => FProd | OQuot => FQuot | OLt => FLt
+                               | OLe => FLe | OEq => FEq | OGt => FGt | OGe => FGe end
+  | TIf _ _ _ => FIf
+  end.
+Definition in_formers (l : list former) (t : term) : bool := existsb (former_eqb (former_of t)) l.
